@@ -176,6 +176,10 @@ pub fn run(ctx: &mut Ctx) {
                 let cfg = Cfg::strict().with_cap(cap);
                 // zero deviations first, then one short read at read k
                 let mut schedules: Vec<Vec<Step>> = vec![vec![]];
+                if c > 1 {
+                    schedules.push(vec![Step::Max(1); c + 2]);
+                    schedules.push(vec![Step::Max(2); c / 2 + 2]);
+                }
                 if c > 0 {
                     for k in 0..3usize {
                         for m in [1usize, 2, 3, 7] {
